@@ -93,6 +93,14 @@ fn adjust12(hour: u32, pm: bool) -> u32 {
     }
 }
 
+/// The two-letter year field reads up to four digits, and a text of three or four digits is
+/// the year in full (0021 is the year 21, not 2021) — the leniency of the dialect the crate
+/// follows. Two-digit fields are the only ones with this rule.
+pub fn yy_text_is_full_year(txt: &str) -> bool {
+    let t = txt.trim();
+    (3..=4).contains(&t.len()) && t.bytes().all(|b| b.is_ascii_digit())
+}
+
 fn digits_value(txt: &str, max_len: usize) -> Option<u32> {
     let t = txt.trim();
     if t.is_empty() || t.len() > max_len || !t.bytes().all(|b| b.is_ascii_digit()) {
@@ -159,6 +167,8 @@ pub fn is_complete_date(toks: &[Tok]) -> bool {
         }
         match t.sem {
             Sem::Year { k: 4, .. } => y4 = true,
+            // a YY field whose text has three or four digits is a full year (see expect_parse)
+            Sem::Year { k: 2, .. } if yy_text_is_full_year(&t.txt) => y4 = true,
             Sem::Month { .. } | Sem::MonthName { .. } | Sem::MonthNumAsName { .. } | Sem::MonthNameGivenNumber { .. } => m = true,
             Sem::Day { .. } => d = true,
             Sem::Doy { .. } => doy = true,
@@ -266,6 +276,13 @@ pub fn expect_parse(ty: Ty, toks: &[Tok], r: &Reading) -> Exp {
                 } else {
                     tt
                 };
+                if *k == 2 && yy_text_is_full_year(tt) {
+                    if digits_value(tt, 4) != Some(*n) {
+                        return Exp::Unmodelled;
+                    }
+                    year = Some((4, *n));
+                    continue;
+                }
                 if digits_value(body, *k as usize) != Some(*n) {
                     return Exp::Unmodelled;
                 }
